@@ -1,1 +1,142 @@
+// Contracts for crates/jxl-jbr/src/reconstruct/scan.rs (child module: sees ScanState and its fields).
+//
+// Spec sources (ITU-T T.81 | ISO/IEC 10918-1):
+//  * F.1.2.3 / B.1.1.5: before a marker the entropy-coded segment is completed to a byte boundary with 1-bits;
+//    the reconstruction format (18181-2 jbrd `padding_bits`, as written by libjxl: one entry per padding bit,
+//    in stream order) may instead prescribe the exact padding bits so that the original file is reproduced.
+//  * E.1.4 / B.2.1: restart markers RSTm, m counting modulo 8 starting from 0 in every scan; F.1.1.5.1: the DC
+//    prediction is reset to 0 at a restart.
+//  * G.1.2.2, Figure G.4 (Encode_EOBRUN): SSSS = floor(log2(EOBRUN)), code for symbol (SSSS << 4), then the SSSS
+//    low-order bits of EOBRUN; G.1.2.3 Figure G.6 (Append_BR_bits): buffered correction bits follow.
+// The BitWriter underneath is covered by the bit_writer.rs contracts; its fields are not visible from here, so
+// the bit sequence is observed through `finalize()` and the shared T.81 bit-stream spec (jpeg_bits.rs).
+// BitWriter::new / emit_byte / Vec::extend_from_slice are replaced by the models justified in bit_writer.rs
+// (new_reserved_contract, emit_byte_contract + emit_byte_model_contract, extend_real/model_contract).
 use super::*;
+
+#[path = "@SPEC@/jpeg_bits.rs"]
+mod jpeg_bits;
+use jpeg_bits::*;
+
+/// finalize the writer of `state` and return (raw bytes after destuffing, number of raw bytes)
+fn drain(state: &mut ScanState<'_>, nbits: usize) -> Option<[u8; 16]> {
+    let bw = std::mem::replace(&mut state.bit_writer, BitWriter::new());
+    let bytes = bw.finalize();
+    destuff::<16>(&bytes, 0, (nbits + 7) / 8)
+}
+
+// ------------------------------------------------------------------------------------------------
+// update_dc_pred: DIFF = DC - PRED, PRED = DC (F.1.1.5.1)
+// ------------------------------------------------------------------------------------------------
+#[kani::proof]
+#[kani::unwind(5)]
+fn update_dc_pred_contract() {
+    let mut st = ScanState::new(3);
+    let p: [i16; 3] = kani::any();
+    st.dc_pred[0] = p[0];
+    st.dc_pred[1] = p[1];
+    st.dc_pred[2] = p[2];
+    let c: usize = kani::any();
+    kani::assume(c < 3);
+    let dc: i16 = kani::any();
+    let d = st.update_dc_pred(c, dc);
+    assert!(d == dc.wrapping_sub(p[c]), "[C17,C01] DIFF = DC - PRED (no overflow panic)");
+    assert!(st.dc_pred[c] == dc, "[C17] PRED = DC of this component");
+    let o: usize = kani::any();
+    kani::assume(o < 3 && o != c);
+    assert!(st.dc_pred[o] == p[o], "[C17] other components' predictions untouched");
+}
+
+// ------------------------------------------------------------------------------------------------
+// flush_bit_writer: completes the segment to a byte boundary and hands the bytes to the writer
+// ------------------------------------------------------------------------------------------------
+const MAXPEND: usize = 24;
+
+fn check_flush(with_padding_stream: bool, check_order: bool) {
+    let mut st = ScanState::new(1);
+    let bits: u64 = kani::any();
+    let len: u8 = kani::any();
+    kani::assume(len as usize <= MAXPEND);
+    st.bit_writer.write_raw(bits, len);
+    let pad_needed = (8 - len as usize % 8) % 8;
+    let pad_src: [u8; 2] = kani::any();
+    let mut pbs = Bitstream::new(&pad_src);
+    let skip: usize = kani::any();
+    kani::assume(skip <= 8);
+    pbs.skip_bits(skip).unwrap(); // padding bits consumed by earlier flushes
+    let mut out = [0u8; 12];
+    let mut cur = &mut out[..];
+    let r = if with_padding_stream {
+        st.flush_bit_writer(Some(&mut pbs), &mut cur)
+    } else {
+        st.flush_bit_writer(None, &mut cur)
+    };
+    assert!(r.is_ok(), "[C17,C01] enough padding bits and room in the writer: Ok");
+    let written = 12 - cur.len();
+    let total = len as usize + pad_needed;
+    let Some(raw) = destuff::<4>(&out[..written], 0, total / 8) else {
+        assert!(false, "[C17] exactly (bits + padding) / 8 raw bytes, stuffed, reach the writer");
+        return;
+    };
+    if with_padding_stream {
+        assert!(pbs.num_read_bits() == skip + pad_needed, "[C17] exactly the needed padding bits are taken from the padding stream");
+    }
+    assert!(st.bit_writer.padding_bits() == 0 && st.eobrun == 0, "[C17] the scan continues with an empty, byte-aligned writer");
+    let k: usize = kani::any();
+    kani::assume(k < total);
+    if k < len as usize {
+        assert!(bit_of_bytes(&raw, k) == bit_of_value(bits, len as usize, k), "[C17] the segment's bits are unchanged");
+    } else if !with_padding_stream {
+        assert!(bit_of_bytes(&raw, k) == 1, "[C17] T.81 F.1.2.3: padded with 1-bits");
+    } else if check_order {
+        // j-th padding bit of this flush = bit (skip + j) of the padding stream (18181-1 bit order: LSB first)
+        let j = k - len as usize;
+        let p = skip + j;
+        let want = (pad_src[p / 8] >> (p % 8)) & 1;
+        assert!(bit_of_bytes(&raw, k) == want, "[C17] padding bits are emitted in the order in which the reconstruction data lists them");
+    } else {
+        // order-insensitive part: the multiset of padding bits emitted == the ones consumed
+        let mut ones_out = 0;
+        let mut ones_in = 0;
+        let mut j = 0;
+        while j < 7 {
+            if j < pad_needed {
+                ones_out += bit_of_bytes(&raw, len as usize + j) as u32;
+                let p = skip + j;
+                ones_in += ((pad_src[p / 8] >> (p % 8)) & 1) as u32;
+            }
+            j += 1;
+        }
+        assert!(ones_out == ones_in, "[C17] the padding consists of the bits taken from the padding stream");
+    }
+    kani::cover!(pad_needed == 7);
+    kani::cover!(pad_needed == 0 && len > 0);
+    kani::cover!(written == total / 8 + 1); // a stuffed 0xFF
+}
+
+#[kani::proof]
+#[kani::unwind(9)]
+#[kani::stub(crate::bit_writer::BitWriter::new, crate::bit_writer::verif_harness::new_reserved)]
+#[kani::stub(crate::bit_writer::BitWriter::emit_byte, crate::bit_writer::verif_harness::emit_byte_model)]
+#[kani::stub(std::vec::Vec::extend_from_slice, crate::bit_writer::verif_harness::extend_model)]
+fn flush_ones_contract() {
+    check_flush(false, false);
+}
+
+#[kani::proof]
+#[kani::unwind(9)]
+#[kani::stub(crate::bit_writer::BitWriter::new, crate::bit_writer::verif_harness::new_reserved)]
+#[kani::stub(crate::bit_writer::BitWriter::emit_byte, crate::bit_writer::verif_harness::emit_byte_model)]
+#[kani::stub(std::vec::Vec::extend_from_slice, crate::bit_writer::verif_harness::extend_model)]
+fn flush_padding_stream_contract() {
+    check_flush(true, false);
+}
+
+#[kani::proof]
+#[kani::unwind(9)]
+#[kani::stub(crate::bit_writer::BitWriter::new, crate::bit_writer::verif_harness::new_reserved)]
+#[kani::stub(crate::bit_writer::BitWriter::emit_byte, crate::bit_writer::verif_harness::emit_byte_model)]
+#[kani::stub(std::vec::Vec::extend_from_slice, crate::bit_writer::verif_harness::extend_model)]
+fn flush_padding_order_contract() {
+    check_flush(true, true);
+}
